@@ -98,3 +98,15 @@ Definition run_prints (p : profile) (file : bytes) : list (Z * field) :=
                                     (unified_memory e (s_raw file ds ST_MEMORY64_LIST) (snd (s_m64 p e file ds)) (snd (s_mem p e file ds)))))]
   | _ => []
   end.
+
+(* ---- allocation ledger of the lookup table behind the stack fallback: MinidumpMemoryList::read ends in from_regions, whose
+   into_rangemap_safe starts with `Vec::with_capacity(input.len())` over 24-byte `(Range<u64>, usize)` entries, one per region kept
+   (with or without a range). The request is sized from the Vec of regions that already exists, never from a count field. *)
+Definition MSZ_RANGE_ENTRY : Z := 24.
+Definition table_ledger (p : profile) (file : bytes) : list Z :=
+  match read_header file with
+  | Ok (e, ds) => match snd (s_mem p e file ds) with Ok regions => [blen regions * MSZ_RANGE_ENTRY] | _ => [] end
+  | _ => []
+  end.
+(* the SIZES line of the correspondence run, with the table entry added: compared with size_of in the harness *)
+Definition sizes2 : list Z := sizes ++ [MSZ_RANGE_ENTRY].
